@@ -3,11 +3,13 @@
 //
 // One BFS per request kind (side-chain register / update / quit, relayer register / remove, validator
 // candidacy, state-validator register / remove) over the events
-//   request            file a fresh request (real tx by the requester)
-//   approve|id|Vi      one approval transaction by validator Vi for request id
-//   inverse            macro of real txs undoing the applied request through its own request+approval flow
-//                      (quit after register, re-register after quit, remove after add, ...), so that a
-//                      re-application of the consumed request is visible in the registry
+//
+//	request            file a fresh request (real tx by the requester)
+//	approve|id|Vi      one approval transaction by validator Vi for request id
+//	inverse            macro of real txs undoing the applied request through its own request+approval flow
+//	                   (quit after register, re-register after quit, remove after add, ...), so that a
+//	                   re-application of the consumed request is visible in the registry
+//
 // to depth 2*quorum+3 (request, round, inverse, second round, one more).
 // Reference monitor: pending[id] (set by an accepted request, cleared by the effect) and the approvers since
 // the last effect.
@@ -105,14 +107,18 @@ func kinds(e *gov.Env) []*kind {
 	}
 	regChain := func(w gov.Execer, h uint32) {
 		must(e.RegisterSideChain(w, "o1", "o1", 1, "reg", h), "registerSideChain")
-		round(func(v string) polyenv.Result { return e.ApproveSC(w, side_chain_manager.APPROVE_REGISTER_SIDE_CHAIN, 1, v, h) }, "approveRegisterSideChain")
+		round(func(v string) polyenv.Result {
+			return e.ApproveSC(w, side_chain_manager.APPROVE_REGISTER_SIDE_CHAIN, 1, v, h)
+		}, "approveRegisterSideChain")
 		if !present(w.Dump().Map(), gov.KeySideChain(1)) {
 			panic("harness: chain 1 not registered after a full round")
 		}
 	}
 	quitChain := func(w gov.Execer, h uint32) {
 		must(e.QuitSideChain(w, "o1", "o1", 1, h), "quitSideChain")
-		round(func(v string) polyenv.Result { return e.ApproveSC(w, side_chain_manager.APPROVE_QUIT_SIDE_CHAIN, 1, v, h) }, "approveQuitSideChain")
+		round(func(v string) polyenv.Result {
+			return e.ApproveSC(w, side_chain_manager.APPROVE_QUIT_SIDE_CHAIN, 1, v, h)
+		}, "approveQuitSideChain")
 		if present(w.Dump().Map(), gov.KeySideChain(1)) {
 			panic("harness: chain 1 still registered after a full quit round")
 		}
@@ -120,7 +126,9 @@ func kinds(e *gov.Env) []*kind {
 	addRelayer := func(w gov.Execer, h uint32) {
 		id := gov.Counter(w.Dump().Map(), gov.KeyRelayerApplyID())
 		must(e.RegisterRelayer(w, []string{"ra"}, "X", h), "registerRelayer")
-		round(func(v string) polyenv.Result { return e.ApproveRelayer(w, relayer_manager.APPROVE_REGISTER_RELAYER, id, v, h) }, "approveRegisterRelayer")
+		round(func(v string) polyenv.Result {
+			return e.ApproveRelayer(w, relayer_manager.APPROVE_REGISTER_RELAYER, id, v, h)
+		}, "approveRegisterRelayer")
 		if !present(w.Dump().Map(), gov.KeyRelayer(e.A("ra").Addr)) {
 			panic("harness: relayer not registered after a full round")
 		}
@@ -128,7 +136,9 @@ func kinds(e *gov.Env) []*kind {
 	delRelayer := func(w gov.Execer, h uint32) {
 		id := gov.Counter(w.Dump().Map(), gov.KeyRelayerRemoveID())
 		must(e.RemoveRelayer(w, []string{"ra"}, "X", h), "removeRelayer")
-		round(func(v string) polyenv.Result { return e.ApproveRelayer(w, relayer_manager.APPROVE_REMOVE_RELAYER, id, v, h) }, "approveRemoveRelayer")
+		round(func(v string) polyenv.Result {
+			return e.ApproveRelayer(w, relayer_manager.APPROVE_REMOVE_RELAYER, id, v, h)
+		}, "approveRemoveRelayer")
 		if present(w.Dump().Map(), gov.KeyRelayer(e.A("ra").Addr)) {
 			panic("harness: relayer still registered after a full removal round")
 		}
@@ -157,14 +167,18 @@ func kinds(e *gov.Env) []*kind {
 	c1 := e.A("c1").PubHex
 	return []*kind{
 		{name: "registerSideChain", ids: []uint64{1}, setup: func(w gov.Execer) {},
-			request: func(w gov.Execer, h uint32) (polyenv.Result, uint64) { return e.RegisterSideChain(w, "o1", "o1", 1, "reg", h), 1 },
+			request: func(w gov.Execer, h uint32) (polyenv.Result, uint64) {
+				return e.RegisterSideChain(w, "o1", "o1", 1, "reg", h), 1
+			},
 			approve: func(w gov.Execer, id uint64, who string, h uint32) polyenv.Result {
 				return e.ApproveSC(w, side_chain_manager.APPROVE_REGISTER_SIDE_CHAIN, id, who, h)
 			}, notify: "ApproveRegisterSideChain",
 			signKey: func(id uint64) string { return gov.SignKey(side_chain_manager.APPROVE_REGISTER_SIDE_CHAIN, u(id)) },
 			invOK:   func(m map[string]string) bool { return present(m, gov.KeySideChain(1)) }, inverse: quitChain},
 		{name: "updateSideChain", ids: []uint64{1}, setup: func(w gov.Execer) { regChain(w, h0) },
-			request: func(w gov.Execer, h uint32) (polyenv.Result, uint64) { return e.UpdateSideChain(w, "o1", "o1", 1, "updX", h), 1 },
+			request: func(w gov.Execer, h uint32) (polyenv.Result, uint64) {
+				return e.UpdateSideChain(w, "o1", "o1", 1, "updX", h), 1
+			},
 			approve: func(w gov.Execer, id uint64, who string, h uint32) polyenv.Result {
 				return e.ApproveSC(w, side_chain_manager.APPROVE_UPDATE_SIDE_CHAIN, id, who, h)
 			}, notify: "ApproveUpdateSideChain",
@@ -202,7 +216,9 @@ func kinds(e *gov.Env) []*kind {
 			invOK:   func(m map[string]string) bool { return !present(m, gov.KeyRelayer(e.A("ra").Addr)) }, inverse: addRelayer},
 		{name: "registerCandidate", ids: []uint64{0}, setup: func(w gov.Execer) {},
 			request: func(w gov.Execer, h uint32) (polyenv.Result, uint64) { return e.RegisterCandidate(w, "c1", "c1", h), 0 },
-			approve: func(w gov.Execer, id uint64, who string, h uint32) polyenv.Result { return e.ApproveCandidate(w, "c1", who, h) },
+			approve: func(w gov.Execer, id uint64, who string, h uint32) polyenv.Result {
+				return e.ApproveCandidate(w, "c1", who, h)
+			},
 			notify:  "approveCandidate",
 			signKey: func(id uint64) string { return gov.SignKey(node_manager.APPROVE_CANDIDATE, []byte(c1)) },
 			invOK:   func(m map[string]string) bool { _, pool := gov.Pool(m); st, in := pool[c1]; return in && st <= 1 },
